@@ -33,7 +33,7 @@ def generate():
         if isinstance(e, ast.Name): return e.id
         return None
     READERS = {'items', 'keys', 'values', 'get', 'copy'}
-    PURE_CALLS = {'len', 'dict', 'list', 'sorted', 'iter', 'tuple', 'set', 'frozenset', 'enumerate', 'reversed', 'bool', 'any', 'all'}
+    PURE_CALLS = {'len', 'dict', 'list', 'sorted', 'iter', 'tuple', 'set', 'frozenset', 'enumerate', 'reversed', 'bool', 'any', 'all', 'isinstance', 'type', 'id', 'repr', 'str', 'min', 'max'}
     def read_only_local(f, name):
         """every occurrence of the local `name` in f is its definition or a read that cannot leak or change the object:
         x[k] (load), iteration, `k in x`, x.items()/keys()/values()/get()/copy(), len(x)/dict(x)/list(x)/sorted(x)..."""
@@ -51,6 +51,7 @@ def generate():
                 if isinstance(p, ast.Compare): continue
                 if isinstance(p, ast.Attribute) and p.value is n and p.attr in READERS and isinstance(parent.get(p), ast.Call) and parent[p].func is p: continue
                 if isinstance(p, ast.Call) and n in p.args and isinstance(p.func, ast.Name) and p.func.id in PURE_CALLS: continue
+                if isinstance(p, ast.List) and isinstance(parent.get(p), ast.Assign) and len(p.elts) == 1: continue      # x = [x]: wrapped in a fresh list
                 return False
         return True
     for m, tree in trees.items():
